@@ -559,16 +559,24 @@ type Checker struct {
 	Srcs    map[string]int
 	Cases   int
 	Viol    int
+	ByFP    map[string]int // violation records per fingerprint
 	// distinct (pow, votes) inputs checked, counted in a set
 	Distinct map[string]struct{}
 }
 
 func NewChecker(out *vc.Out) *Checker {
-	return &Checker{Out: out, Variant: map[string]int{}, Ops: map[string]int{}, Srcs: map[string]int{}, Distinct: map[string]struct{}{}}
+	return &Checker{Out: out, Variant: map[string]int{}, Ops: map[string]int{}, Srcs: map[string]int{}, Distinct: map[string]struct{}{}, ByFP: map[string]int{}}
 }
 
 func (c *Checker) viol(ev *Event, w *World, pred, site, class, what string, extra vc.M) {
 	c.Viol++
+	// at most 20 records per fingerprint are written out (the check deduplicates by fingerprint anyway);
+	// the summary carries the full counts
+	fp := pred + "|" + site + "|" + class
+	c.ByFP[fp]++
+	if c.ByFP[fp] > 20 {
+		return
+	}
 	m := vc.M{"kind": "violation", "predicate": pred, "site": site, "class": class, "what": what,
 		"i": ev.I, "src": ev.Src, "pow": w.powers(), "state": w.StateJSON()}
 	for k, v := range extra {
@@ -749,7 +757,7 @@ func (c *Checker) CheckStep(ev *Event, w *World, o ObsSum, step string) {
 // Summary writes the closing record.
 func (c *Checker) Summary(name string, extra vc.M) {
 	m := vc.M{"kind": "summary", "harness": name, "cases": c.Cases, "ops": c.Ops, "srcs": c.Srcs,
-		"variant": c.Variant, "violations": c.Viol, "distinct": len(c.Distinct)}
+		"variant": c.Variant, "violations": c.Viol, "by_fingerprint": c.ByFP, "distinct": len(c.Distinct)}
 	for k, v := range extra {
 		m[k] = v
 	}
